@@ -230,13 +230,8 @@ func c10OneSuite12(t *testing.T, r *c10Rand, out *c10Out, id ID, sp c10Suite, is
 		blk, _ := aes.NewCipher(wkey)
 		plain := make([]byte, len(body)-16)
 		cipher.NewCBCDecrypter(blk, body[:16]).CryptBlocks(plain, body[16:])
-		if withCID {
-			// known deviation F8 is reported by the pkg/crypto/ciphersuite leg; here the as-coded
-			// MAC input is used so that everything else about the suite is still compared
-			out.emit(72, sp.hashCode, tag+" cid (MAC as coded)", ins, nums, [][]byte{wmac, wkey, plain, got[:hs]})
-		} else {
-			out.emit(71, sp.hashCode, tag, ins, nums, [][]byte{wmac, wkey, plain, got[:hs]})
-		}
+		// connection-ID records: MAC input strictly per RFC 9146 section 5.1
+		out.emit(71, sp.hashCode, tag, ins, nums, [][]byte{wmac, wkey, plain, got[:hs]})
 	}
 	out.note = ""
 }
